@@ -30,12 +30,21 @@ def generate(rng, tier):
                 pkt = d.encode(path, mode)
                 o = (rng.choice("01"), "0", "0", "0", rng.choice("01"))
                 yield genutil.gen_line(dsx, "-", o, 0, [pkt]), f"{mode}"
+            # several packets of the same structure (same APID) in one stream: each is flagged / withheld on its own
+            pk = [d.encode(path, rng.choice(["exact", "short", "long", "long"])) for _ in range(rng.randrange(2, 6))]
+            yield genutil.gen_line(dsx, "-", (rng.choice("01"), "0", "0", "0", "0"), 0, [b"".join(pk)]), "multi"
     # the two read primitives reject negative widths (the cursor can never be rewound)
     for _ in range(60):
         buf = rng.randbytes(rng.randrange(0, 6))
         p = rng.randrange(0, 8 * len(buf) + 9)
         n = -rng.randrange(1, 40)
         yield f"{rng.choice(['rint', 'rbytes'])} {hx(buf)} {p} {n}", "negative-read"
+    # bytes reads that would end beyond the buffer are refused, aligned or not
+    for _ in range(120):
+        buf = rng.randbytes(rng.randrange(0, 6))
+        p = rng.choice([0, 8, 16, 24]) if rng.random() < 0.5 else rng.randrange(0, 8 * len(buf) + 9)
+        n = max(0, 8 * len(buf) - p) + (8 * rng.randrange(1, 4) if rng.random() < 0.6 else rng.randrange(1, 30))
+        yield f"rbytes {hx(buf)} {p} {n}", "bytes-past-end"
 
 
 def impl(line):
@@ -84,7 +93,10 @@ def oracle(line, out):
     """Direct check: a packet is delivered without the warning exactly when the widths of its decoded fields sum to
     its length; a negative computed width is never delivered at all."""
     if line.startswith("r"):
-        return out == "err value"
+        op, d, p, n = line.split()
+        if int(n) < 0 or (op == "rbytes" and int(p) + int(n) > 4 * (len(d) - 1)):
+            return out == "err value"
+        return None
     t = parse_sx(line)
     if not out.startswith("events"):
         return None
@@ -111,7 +123,8 @@ def oracle(line, out):
                 if wd != int(wd) or wd < 0:
                     return False            # a negative / fractional width was delivered
                 total += int(wd)
-            clean = not prev_warn
+            # with bad packets excluded a warning belongs to a withheld packet, never to the packet that follows it
+            clean = (not prev_warn) or t[3][0] == "0"
             if clean != (total == 8 * len(raw)):
                 return False
             if pos != total:
